@@ -49,6 +49,9 @@ type corsWorld struct {
 	h      restful.RouteFunction
 	grown  bool // /u1 also serves PUT
 	shrunk bool // /u2 no longer serves PUT
+	// predicate "toggle": the configured AllowedDomainFunc reads this ("suffix" or "never"); the application
+	// changes its mind about who is allowed while the same filter instance keeps serving
+	predMode string
 }
 
 func (w *corsWorld) shrink() {
@@ -65,6 +68,9 @@ func (w *corsWorld) grow() {
 		w.grown = true
 	}
 }
+
+// togglePred: the world whose predMode the "toggle" predicate of the container under test reads
+var togglePred = &corsWorld{predMode: "suffix"}
 
 func corsContainer(cfg *corsCfg, cnt *corsCounters) *restful.Container {
 	c, _ := corsContainerW(cfg, cnt, nil)
@@ -85,6 +91,10 @@ func corsContainerW(cfg *corsCfg, cnt *corsCounters, second *restful.CrossOrigin
 			cors.AllowedDomainFunc = func(string) bool { return false }
 		case "always":
 			cors.AllowedDomainFunc = func(string) bool { return true }
+		case "toggle":
+			cors.AllowedDomainFunc = func(o string) bool {
+				return togglePred.predMode == "suffix" && strings.HasSuffix(strings.ToLower(o), ".example.com")
+			}
 		}
 		c.Filter(cors.Filter)
 	}
@@ -183,11 +193,35 @@ func validHeaderValue(s string) bool {
 
 func runCorsCfg(tw *traceWriter, cfg corsCfg, reqs []corsReq) {
 	cfg.Domains, cfg.Methods, cfg.Headers, cfg.Expose = nonNil(cfg.Domains), nonNil(cfg.Methods), nonNil(cfg.Headers), nonNil(cfg.Expose)
-	tw.emit(map[string]interface{}{"e": "cfg", "cfg": cfg})
+	toggling := cfg.Pred == "toggle"
+	logged := cfg
+	if toggling {
+		// the specification sees the predicate that is in force: "suffix" first, "never" after the switch
+		togglePred.predMode = "suffix"
+		logged.Pred = "suffix"
+		shop := corsReq{M: "GET", Origin: "https://shop.example.com", URL: "/u1"}
+		k := len(reqs) / 3
+		given := false
+		for _, rq := range reqs {
+			given = given || rq.M == "TOGGLE" // a replayed sequence carries its own switch
+		}
+		if !given {
+			// the same origin right before and right after the switch
+			reqs = append(append(append([]corsReq{}, reqs[:k]...), shop, corsReq{M: "TOGGLE"}, shop,
+				corsReq{M: "OPTIONS", Origin: shop.Origin, Acrm: "GET", URL: "/u1"}), reqs[k:]...)
+		}
+	}
+	tw.emit(map[string]interface{}{"e": "cfg", "cfg": logged, "toggle": toggling})
 	var cnt, tcnt corsCounters
 	c, world := corsContainerW(&cfg, &cnt, nil)
 	twin, tworld := corsContainerW(nil, &tcnt, nil)
 	for i, rq := range reqs {
+		if rq.M == "TOGGLE" {
+			togglePred.predMode = "never"
+			logged.Pred = "never"
+			tw.emit(map[string]interface{}{"e": "cfg", "cfg": logged, "toggled": true})
+			continue
+		}
 		if i == len(reqs)/2 {
 			// a route is added to an already registered WebService: /u1 serves PUT from now on
 			world.grow()
@@ -217,6 +251,10 @@ func runCorsCfg(tw *traceWriter, cfg corsCfg, reqs []corsReq) {
 func runCorsStacked(tw *traceWriter, cfg corsCfg, reqs []corsReq) {
 	cfg.Domains, cfg.Methods, cfg.Headers, cfg.Expose = nonNil(cfg.Domains), nonNil(cfg.Methods), nonNil(cfg.Headers), nonNil(cfg.Expose)
 	cfg.Cookies = false
+	togglePred.predMode = "never"
+	if cfg.Pred == "toggle" {
+		cfg.Pred = "never"
+	}
 	var cnt corsCounters
 	second := &restful.CrossOriginResourceSharing{AllowedDomains: []string{"http://b.org"}, CookiesAllowed: true, ExposeHeaders: []string{"X-B"}}
 	c, _ := corsContainerW(&cfg, &cnt, second)
@@ -317,7 +355,7 @@ func runCors(planPath, outPath string, seed int64) {
 		"http://[::1]:8080", "https://user@host.test", "http://a^b.test"}
 	hdrPool := []string{"X-A", "x-a", "X-B", "Content-Type", "Authorization", "X-C"}
 	for i := 0; i < p.Random; i++ {
-		cfg := corsCfg{Pred: pick(r, []string{"none", "none", "suffix", "never", "always"}), Cookies: r.Intn(2) == 0}
+		cfg := corsCfg{Pred: pick(r, []string{"none", "none", "suffix", "never", "always", "toggle"}), Cookies: r.Intn(2) == 0}
 		for _, d := range domPool {
 			if r.Intn(4) == 0 {
 				cfg.Domains = append(cfg.Domains, d)
